@@ -28,6 +28,12 @@ def sig(x):
     """signals as the protocol shows them: ints as they are, the MAPK preset's dicts by the tier they carry, None as NIL"""
     if x is None:
         return NIL
+    if type(x).__name__ == "Signal" and hasattr(x, "content"):
+        # an AgentCascade hands agents Signals: shown by the number their content spells
+        c = str(x.content)
+        if c == "None":
+            return NIL           # str(None): the signal None as an agent is told it
+        return int(c) if c.lstrip("-").isdigit() else "obj<Signal>"
     if isinstance(x, dict):
         x = x.get("tier", "d")
     if isinstance(x, int) and not isinstance(x, bool):
@@ -69,8 +75,11 @@ class C19(Prop):
     def extract(self, ctx):
         rows = e_cascade.evaluate(REPO)
         mapk = None if rows is None else e_cascade.evaluate_mapk(REPO)
-        changed = write_if_changed(LEAN / "Operon/Gen/CascadeTable.lean", e_cascade.render(rows, mapk))
+        hist = None if rows is None else e_cascade.evaluate_hist(REPO)
+        agent = None if rows is None else e_cascade.evaluate_agent(REPO)
+        changed = write_if_changed(LEAN / "Operon/Gen/CascadeTable.lean", e_cascade.render(rows, mapk, hist, agent))
         return ([{"id": "E-cascade", "rows": None if rows is None else len(rows), "mapk_preset_evaluated": mapk is not None,
+                  "history_evaluated": hist is not None, "agent_stage_evaluated": agent is not None,
                   "facts_changed": changed}]
                 + py2lean_cascade.run(REPO, LEAN, write_if_changed))
 
@@ -112,6 +121,26 @@ class C19(Prop):
                 case["lines"].insert(1, "cobserver " + rng.choice(["ok", "raise", "raise"]))
                 if rng.random() < 0.5:
                     case["lines"].insert(1, "observer " + rng.choice(["ok", "always", f"at:{rng.randrange(k)}"]))
+            if it % 11 == 7:
+                # an AgentCascade: stages registered through add_agent_stage (stub agents: answer, answer with a Signal, raise)
+                # mixed with plain stages; run() is the inherited one
+                lines = [f"acfg {show_bool(rng.random() < 0.5)} {rng.choice(MAXA)}"]
+                for j in range(rng.randint(1, 4)):
+                    if rng.random() < 0.7:
+                        lines.append(f"agent {rng.choice(CP)} {rng.choice(['ok', 'ok', 'sig', 'raise', 'raise0'])} {rng.choice(AMPS)} "
+                                     f"{rng.choice(['a', 'b', 'c', f'g{j}', f'g{j}'])}")
+                    else:
+                        cp, pr, eh, req, amp = self._rand_stage(rng)
+                        lines.append(f"stage {cp} {pr} {eh} {show_bool(req)} {amp}")
+                if rng.random() < 0.3:
+                    lines.insert(1, "observer " + rng.choice(["ok", "always", "at:0", "at:1"]))
+                for _ in range(rng.randint(1, 3)):
+                    lines.append(rng.choice(["run 1", "run 2", "run 7", "run prev", "prun 1", "hist 2", "setgate a reject",
+                                             "setgate b raise", "remove a", "set halt 0", "set halt 1",
+                                             f"agent {rng.choice(CP)} ok 2 a"]))
+                lines += [f"run {rng.choice([1, 2])}", "hist 0", "stats"]
+                yield {"lines": lines, "note": "AgentCascade with stub agents"}
+                continue
             if it % 17 == 5:
                 lines = [f"mapk {show_bool(rng.random() < 0.5)} {rng.choice(['100', '1000', '4', '2000'])} "
                          f"{rng.choice(AMPS + ['10'])} {rng.choice(AMPS + ['10'])} {rng.choice(AMPS + ['10'])}"]
@@ -143,6 +172,12 @@ class C19(Prop):
                                                  f"setamp {rng.choice(names)} {rng.choice(AMPS)}"]))
                     elif r < 0.16 and not any(" nest " in l for l in lines):
                         lines.append(f"prun {rng.choice([0, 1, 2, 7])}")     # the fork entry point in between
+                    elif r < 0.24:
+                        # what get_history hands out (positive, zero, negative, oversized limits); small batches
+                        lines.append(rng.choice([f"hist {rng.choice([0, 1, 1, 2, 3, 100, -1, -2])}",
+                                                 f"runs {rng.randint(2, 6)} {rng.choice([0, 1, 2, 7])}"]))
+                        if lines[-1].startswith("runs"):
+                            lines.append(f"hist {rng.choice([0, 1, 2, 3, -1])}")
                     elif r < 0.45:
                         lines.append(f"run {rng.choice([0, 1, 1, 2, 7, 11, 'prev', 'prev'])}")
                     elif r < 0.7 and names:
@@ -157,6 +192,7 @@ class C19(Prop):
                         lines.append(f"insert {idx} {cp} {pr} {eh} {show_bool(req)} {amp} {nm}")
                         names.insert(idx, nm)
                 lines.append(f"run {rng.choice([0, 1, 1, 2, 7])}")
+                lines.append(f"hist {rng.choice([0, 1, 2, 3, 100, -1])}")
                 lines.append("stats")
                 case["note"] = "random history on one cascade"
             yield case
@@ -255,7 +291,60 @@ class C19(Prop):
                                                     ("none", "ok", "none", True, "5")], 2, "two re-entrant processors"))
         for c in nested[::7]:
             c["lines"] += ["run 2", "stats"]
-        return [{"name": f"all pipelines of <= {depth} stages over the behaviour alphabet x both halt settings",
+        # stages sharing a name: results, blocked_at and the tally are per STAGE, not per name
+        dup = []
+        dsmall = [(cp, pr, eh, req, amp) for cp in ("none", "pass", "reject", "raise") for (pr, eh) in (("ok", "none"), ("raise", "none"),
+                  ("raise", "ok"), ("raise", "raise")) for req in (True, False) for amp in ("2",)]
+        for halt in (True, False):
+            for s1 in dsmall:
+                for s2 in dsmall:
+                    if s1[1] == "ok" and s1[0] in ("none", "pass") and s2[1] == "ok" and s2[0] in ("none", "pass"):
+                        continue
+                    lines = [f"cfg {show_bool(halt)} 4", "observer ok"]
+                    lines += [f"stage {cp} {pr} {eh} {show_bool(req)} {amp} same" for (cp, pr, eh, req, amp) in (s1, s2)]
+                    lines += ["stage pass ok none 1 2 other", "run 1", "hist 1"]
+                    dup.append({"lines": lines, "note": "exhaustive: two stages sharing a name, then a third"})
+        if tier == "quick":
+            # a third of the pairs, always with the pairs whose first stage is optional and fails (SKIPPED behind a shared name)
+            dup = [c for k, c in enumerate(dup) if k % 4 == 0 or (k % 2 == 1 and " raise " in c["lines"][2] and " 0 2 same" in c["lines"][2])]
+        for halt in (True, False):
+            for order in itertools.permutations([("pass", "ok", "none", True, "2"), ("none", "raise", "none", False, "2"),
+                                                 ("reject", "ok", "none", False, "4")]):
+                lines = [f"cfg {show_bool(halt)} 16"] + [f"stage {cp} {pr} {eh} {show_bool(req)} {amp} n" for (cp, pr, eh, req, amp) in order]
+                dup.append({"lines": lines + ["run 1", "remove n", "run 1", "setgate n reject", "run 1", "remove n", "run 1", "hist 0", "stats"],
+                            "note": "exhaustive: three stages sharing one name, removed one by one"})
+        # the history: what get_history hands out, and the internal limit of 1000 records crossed
+        histc = []
+        for halt in ("1", "0"):
+            for g in ("pass", "reject", "odd"):
+                histc.append({"lines": [f"cfg {halt} 4", f"stage {g} ok none 1 2", "hist 1", "hist 0", "run 1", "run 2", "run 3", "hist 1", "hist 2",
+                                        "hist 3", "hist 4", "hist 0", "hist -1", "hist -2", "hist -3", "hist -5", "hist 100", "prun 1", "hist 2",
+                                        "prun 2", "hist 0", "stats"],
+                              "note": "get_history limits (positive, zero, negative, oversized) on a short history"})
+        for (g, co) in (("pass", "none"), ("odd", "raise")) if tier == "quick" else \
+                [(g, co) for g in ("pass", "odd", "reject", "raise") for co in ("none", "ok", "raise")]:
+            histc.append({"lines": ["cfg 1 4", f"stage {g} ok none 1 2", f"cobserver {co}", "runs 998 1", "hist 2", "hist 0", "run 2", "hist 0", "run 3",
+                                    "hist 0", "run 4", "hist 0", "hist 1", "hist 1000", "hist 1001", "hist -998", "prun 1", "hist 0", "prun 2",
+                                    "hist 0", "hist -1000", "run 5", "hist 0", "hist 3", "stats"],
+                          "note": "the internal limit of the history (1000 records) crossed by run(); run_parallel in between"})
+        # AgentCascade: stub agents (answer / answer with a Signal / raise) behind every kind of gate, with a plain stage in between
+        agents = []
+        for halt in ("1", "0"):
+            for cp1 in ("none", "pass", "reject", "raise", "odd", "freject", "boolraise")[:4 if tier == "quick" else 7]:
+                for k1 in ("ok", "sig", "raise"):
+                    for cp2 in ("none", "pass", "reject", "odd"):
+                        for k2 in ("ok", "sig", "raise"):
+                            agents.append({"lines": [f"acfg {halt} 4", f"agent {cp1} {k1} 2 a", f"agent {cp2} {k2} 2 b", "run 1", "run 2",
+                                                     "hist 2", "stats"], "note": "exhaustive: AgentCascade with two stub agents"})
+                    agents.append({"lines": [f"acfg {halt} 4", f"agent {cp1} {k1} 2 a", "stage pass ok none 1 2 p", f"agent odd {k1} 4 c",
+                                             "run 1", "setgate a reject", "run 1", "prun 1", "run prev", "stats"],
+                                   "note": "exhaustive: agents and a plain stage on one AgentCascade, gate re-assigned"})
+        return [{"name": "stages sharing a name (two behind one name then a third; three under one name removed one by one)",
+                 "cases": dup},
+                {"name": "get_history limits on short histories; the 1000-record limit crossed (batch lines)", "cases": histc},
+                {"name": "AgentCascade: add_agent_stage with stub agents x gate kinds x halt, mixed with plain stages",
+                 "cases": agents},
+                {"name": f"all pipelines of <= {depth} stages over the behaviour alphabet x both halt settings",
                  "cases": cases},
                 {"name": "a processor that re-enters run() on its own cascade x 2-stage pipelines x halt x max (each nested run judged "
                          "as a run of its own)", "cases": nested},
@@ -277,6 +366,13 @@ class C19(Prop):
         cur = []       # descriptors of the stages currently in the cascade, in order (parallel to casc._stages)
         made = [0]
         shadows = []
+        par_recs = []      # records returned by run_parallel (kept alive: `hist` tells them apart by identity)
+        agent_env = {"orig": None, "pending": None, "budget": None}
+
+        def val(x):
+            """the number a signal stands for (None = NIL, a Signal = the number its content spells)"""
+            v = sig(x)
+            return v if isinstance(v, int) else x
 
         class Boom(Exception):
             pass
@@ -330,7 +426,7 @@ class C19(Prop):
                 if cp == "boolraise":
                     log.append(f"cp{pos()}:{sig(x)}:x")
                     return NoTruth()
-                xv = NIL if x is None else x
+                xv = val(x)
                 r = True if cp in ("pass", "fpass", "truthy") else False if cp in ("reject", "freject", "falsy") else \
                     (isinstance(xv, int) and xv % 2 == 1) if cp == "odd" else (isinstance(xv, int) and xv < 50)
                 log.append(f"cp{pos()}:{sig(x)}:{'t' if r else 'f'}")
@@ -380,7 +476,7 @@ class C19(Prop):
                     return None
                 elif pr != "ok":
                     raise fault(pr, "p")
-                return (NIL if x is None else x) * 10 + i0 + 1
+                return val(x) * 10 + i0 + 1
 
             def ef(e):
                 log.append(f"e{pos()}")
@@ -611,6 +707,7 @@ class C19(Prop):
                         r = casc.run_parallel(int(t[1]))
                     finally:
                         forked[0] = False
+                    par_recs.append(r)
                     stc = {"completed": "c", "failed": "f", "skipped": "s", "blocked": "b"}
                     outs = "none" if r.final_output is None else \
                         "[" + ",".join(sorted(str(sig(v)) for v in r.final_output)) + "]" if isinstance(r.final_output, list) \
@@ -622,6 +719,91 @@ class C19(Prop):
                     obs.append(" ".join(["P", show_bool(r.success), outs, str(r.stages_completed), str(r.stages_total),
                                          show_rat(r.total_amplification), "[" + ",".join(res) + "]",
                                          "[" + ",".join(sorted(log)) + "]"]) + extra)
+                elif t[0] == "acfg" and len(t) == 3:
+                    # an AgentCascade (it inherits run()); its agents are stubs installed as the module's BioAgent: express is
+                    # handed a Signal (anything else wrapped as Signal(content=str(x))) and returns a protein whose payload
+                    # is the stage's output, or raises
+                    if agent_env["orig"] is None:
+                        agent_env["orig"] = m.BioAgent
+
+                        class StubAgent:
+                            def __init__(self, name, role, atp_store):
+                                self.name, self.role, self.atp = name, role, atp_store
+                                self.d = agent_env["pending"]
+                                self.budget_ok = atp_store is agent_env["budget"]
+
+                            def express(self, signal):
+                                d = self.d
+                                k = next(i for i, y in enumerate(cur) if y is d)
+                                if not isinstance(signal, m.Signal) or not self.budget_ok:
+                                    log.append(f"p{k}:NOT-A-SIGNAL")
+                                    raise TypeError("express was not handed a Signal")
+                                log.append(f"p{k}:{sig(signal)}")
+                                if d["kind"] not in ("ok", "sig"):
+                                    raise fault(d["kind"], "express")
+                                out = val(signal) * 10 + d["id"] + 1
+                                return m.ActionProtein("EXECUTE", m.Signal(content=str(out)) if d["kind"] == "sig" else out, 1.0)
+                        m.BioAgent = StubAgent
+                    agent_env["budget"] = object()
+                    added_a = []
+
+                    class _RecA(m.AgentCascade):
+                        def add_stage(self, stage, *a, **kw):
+                            added_a.append(stage)
+                            return super().add_stage(stage, *a, **kw)
+                    casc = _RecA("c", agent_env["budget"], halt_on_failure=t[1] == "1", max_amplification=float(Fraction(t[2])),
+                                 silent=True)
+                    casc._added = added_a
+                    log.clear()
+                    cur.clear()
+                    made[0] = 0
+                    last_out[0] = 0
+                    cmode[0] = "none"
+                    obs.append("ok")
+                elif t[0] == "agent" and len(t) == 5:
+                    if casc is None or not isinstance(casc, m.AgentCascade):
+                        obs.append("bad-op")
+                    else:
+                        d = {"cp": t[1], "pr": "ok" if t[2] in ("ok", "sig") else "raise", "kind": t[2], "eh": "none", "req": True,
+                             "amp": float(Fraction(t[3])), "id": made[0], "name": t[4]}
+                        made[0] += 1
+                        agent_env["pending"] = d
+                        n0 = len(casc._added)
+                        back = casc.add_agent_stage(t[4], "Processor", amplification=d["amp"], checkpoint=gate_object(d))
+                        agent_env["pending"] = None
+                        if len(casc._added) != n0 + 1:
+                            obs.append(f"registered:{len(casc._added) - n0}")
+                        else:
+                            d["stage"] = casc._added[-1]
+                            cur.append(d)
+                            obs.append("ok" if back is casc else "ok-not-chained")
+                elif t[0] == "runs" and len(t) == 3:
+                    # a batch of calls of run() on the same signal: how many, how many reported success
+                    ensure()
+                    oks = 0
+                    for _ in range(int(t[1])):
+                        del log[:]
+                        del seen[:]
+                        del inner[:]
+                        depth[0] = 0
+                        try:
+                            o1 = do_run(last_out[0] if t[2] == "prev" else int(t[2]), outer=True)
+                        except Exception as e:
+                            o1 = f"raise:{type(e).__name__}"
+                        oks += o1.startswith("1 ")
+                    obs.append(f"R {int(t[1])} {oks}")
+                elif t[0] == "hist" and len(t) == 2:
+                    # get_history(k): length, the oldest three and the newest three records of what is returned
+                    ensure()
+                    l = casc.get_history(int(t[1]))
+
+                    def sh(r):
+                        if any(r is q for q in par_recs):
+                            return f"P{show_bool(r.success)}"
+                        fin = "none" if (r.final_output is None and not r.success) else f"some:{sig(r.final_output)}"
+                        return f"{show_bool(r.success)}:{fin}"
+                    obs.append(" ".join(["H", str(len(l)), "[" + ",".join(sh(r) for r in l[:3]) + "]",
+                                         "[" + ",".join(sh(r) for r in l[max(0, len(l) - 3):]) + "]"]))
                 elif t[0] == "run" and len(t) == 2:
                     ensure()
                     del log[:]
@@ -636,6 +818,8 @@ class C19(Prop):
                 obs.append(f"raise:{type(e).__name__}")
         if swallowed:
             swallowed[0].__exit__(None, None, None)
+        if agent_env["orig"] is not None:
+            m.BioAgent = agent_env["orig"]
         return obs, None
 
     # --- oracle: the property text, evaluated on what the real code did --------------------------------------
@@ -645,9 +829,33 @@ class C19(Prop):
         beh = []          # (cp, pr, eh, req, amp, creation id, name) of the stages currently in the pipeline
         made = 0
         observer = "none"
-        prev = 0          # what `run prev` feeds in: the final output of the last successful run that returned
+        prev = 0          # what `run prev` feeds in: the final output of the last successful run that returned (None: not known)
+        last_run = None   # "<success>:<final>" of the run() call right before this line, if that is what the line before was
         for idx, (line, o) in enumerate(zip(case["lines"], obs)):
             t = line.split()
+            if t[0] == "hist" and len(t) == 2 and o.startswith("H "):
+                # "otherwise no final output is released" - not through the history either; and the newest record is the
+                # result of the call that just returned
+                hf = o.split(" ")
+                shown = [x for x in hf[2][1:-1].split(",") + hf[3][1:-1].split(",") if x]
+                for ent in shown:
+                    if ent.startswith("0:") and ent != "0:none":
+                        out.append(Violation("no_output_unless_success", "0:none in the history", ent, idx))
+                newest = [x for x in hf[3][1:-1].split(",") if x]
+                if last_run is not None and newest and newest[-1] != last_run:
+                    out.append(Violation("history_newest_record_is_the_returned_result", last_run, newest[-1], idx))
+                continue
+            if t[0] not in ("stats",):
+                last_run = None
+            if t[0] == "runs":
+                prev = None
+                continue
+            if t[0] == "acfg" and len(t) == 3:
+                halt, maxa, beh, made, observer, prev = t[1] == "1", Fraction(t[2]), [], 0, "none", 0
+            if t[0] == "agent" and len(t) == 5 and o.startswith("ok"):
+                # add_agent_stage: gated by the checkpoint handed in, no handler, required; the agent's answer is the stage function
+                beh.append((t[1], "ok" if t[2] in ("ok", "sig") else "raise", "none", True, Fraction(t[3]), made, t[4]))
+                made += 1
             if t[0] == "mapk" and len(t) == 6:
                 halt, maxa, made, observer, prev = t[1] == "1", Fraction(t[2]), 3, "none", 0
                 beh = [("none", "mapk1", "none", True, Fraction(t[3]), 0, "MAPKKK"),
@@ -689,6 +897,8 @@ class C19(Prop):
                       out.append(Violation("call_returns", "a result (nested run)", part, idx))
                       continue
                   x_in = (prev if t[1] == "prev" else int(t[1])) if part_i == 0 else 3
+                  if part_i == 0 and " | " not in o:
+                      last_run = " ".join(part.split(" ")[:2]).replace(" ", ":", 1)
                   o_ = part
                   f = o_.split(" ")
                   if any(x.startswith("MISMATCH") for x in f[9:]):
@@ -739,7 +949,9 @@ class C19(Prop):
                   if success != all_c:
                       out.append(Violation("success_iff_all_completed_in_order", f"success={all_c}", o, idx))
                   # 4./5. final output
-                  if success:
+                  if success and x_in is None:
+                      pass       # fed back from a batch whose outputs were not shown
+                  elif success:
                       x = x_in
                       for b in beh:
                           if b[1].startswith("mapk"):
